@@ -169,16 +169,17 @@ class VariableLocationGate(ComposedGate):
         P = np.sum([a * s for a, s in zip(l, self.perms)], 0)
         G = self.gate.get_unitary(a)
         G = np.kron(G, self.I)
-        PG = P @ G
-        GPT = G @ P.T
-        PGPT = P @ GPT
+        # Same orientation as get_unitary: P.T @ G @ P
+        PG = P.T @ G
+        GPT = G @ P
+        PGPT = P.T @ GPT
 
         dG = self.gate.get_grad(a)
         dG = np.kron(dG, self.I)
-        dG = P @ dG @ P.T
+        dG = P.T @ dG @ P
 
         perm_array = np.array([perm for perm in self.perms])
-        dP = perm_array @ GPT + PG @ perm_array.transpose((0, 2, 1)) - 2 * PGPT
+        dP = perm_array.transpose((0, 2, 1)) @ GPT + PG @ perm_array - 2 * PGPT
         dP = np.array([10 * x * y for x, y in zip(l, dP)])
         U = UnitaryMatrix.closest_to(PGPT, self.radixes)
         return U, np.concatenate([dG, dP])
